@@ -857,9 +857,10 @@ func txTypestate(c *kit.Ctx, f *kit.Func, r *kit.Rule) {
 		c.Fatalf("R5: state overflow in %s", f.Name)
 	}
 	type verdict struct {
-		bad  string
-		ok   string
-		exit kit.Exit
+		bad   string
+		ok    string
+		undec string
+		exit  kit.Exit
 	}
 	per := map[*ast.ReturnStmt]*verdict{}
 	var order []*ast.ReturnStmt
@@ -892,8 +893,20 @@ func txTypestate(c *kit.Ctx, f *kit.Func, r *kit.Rule) {
 		}
 		switch tx {
 		case "begun", "beginpending":
+			handed := false
+			if txv := txVarOfBegin(f, beginCallOf(f)); txv != nil {
+				for _, res := range e.Return.Results {
+					if kit.ObjOf(info, res) == txv || holdsTx(f, res, txv, 0) {
+						handed = true
+					}
+				}
+			}
 			if e.State.Get("deferrb") == "1" {
 				v.ok = "deferred rollback"
+			} else if handed {
+				// the open transaction is handed to the caller inside a value (a small type
+				// wrapping it): who commits or rolls back is not followed
+				v.undec = "the open transaction is returned to the caller inside `" + f.Str(e.Return) + "`; its completion by the callers is not followed"
 			} else {
 				v.bad = "exit with the transaction neither committed nor rolled back"
 				v.exit = e
@@ -929,6 +942,8 @@ func txTypestate(c *kit.Ctx, f *kit.Func, r *kit.Rule) {
 		o := r.Ob(f, ret, "exit "+retKey(f, ret), "every exit after a successful Begin is committed or rolled back; nil only after Commit returned nil")
 		if v.bad != "" {
 			o.Violation("%s", v.bad).WithPath(res.PathTo(v.exit))
+		} else if v.undec != "" {
+			o.Undecided("%s", v.undec)
 		} else {
 			o.OK("%s", v.ok)
 		}
